@@ -126,8 +126,10 @@ def convert(root, expand=False):
                     r = cache[d[1].id]
                 else:
                     r = rf.fvar(_vid('v_' + n.val))
-            elif op in ('fn', 'rpow'):
+            elif op == 'fn':
                 r = rf.fvar(_vid(f'o_{n.id}'))
+            elif op == 'rpow':
+                r = _rpow_frac(n, cache[n.args[0].id])
             elif op == '+':
                 r = rf.fadd(cache[n.args[0].id], cache[n.args[1].id])
             elif op == '*':
@@ -142,6 +144,143 @@ def convert(root, expand=False):
                 raise EngineLimit(f'normaliser: op {op}')
             cache[n.id] = r
     return cache[root.id]
+
+
+def _prime_factors(q):
+    """rational q > 0 -> {prime: integer exponent}"""
+    out = {}
+    for val, sgn in ((q.numerator, 1), (q.denominator, -1)):
+        d = 2
+        while val > 1 and d * d <= val:
+            while val % d == 0:
+                out[d] = out.get(d, 0) + sgn
+                val //= d
+            d += 1
+        if val > 1:
+            out[val] = out.get(val, 0) + sgn
+    return out
+
+
+def fold_prime_powers(p):
+    """a prime generator k_q stands for the number q: k_q^e with e = k + f, k integer, 0 <= f < 1 is
+    rewritten to q^k k_q^f (after scaling the whole polynomial by k_q^shift to avoid negative k)"""
+    import math
+    kp = core.CTX.__dict__.get('_kprime', {})
+    if not kp or not p:
+        return p
+    for g in sorted({v for m in p for v, _ in m if v in kp}):
+        lo = 0
+        for m in p:
+            for v, e in m:
+                if v == g and e < lo:
+                    lo = e
+        shift = -math.floor(lo) if lo < 0 else 0
+        out = {}
+        for m, c in p.items():
+            d = dict(m)
+            e = d.pop(g, 0) + shift
+            k = math.floor(e)
+            f = e - k
+            if f != 0:
+                d[g] = f
+            mm = tuple(sorted(d.items()))
+            val = out.get(mm, 0) + c * kp[g] ** int(k)
+            if val:
+                out[mm] = val
+            else:
+                out.pop(mm, None)
+        p = out
+    return p
+
+
+def fold_generator_powers(p):
+    """a generator g stands for a polynomial P (a factor of a rational-power base): g^e with
+    e = k + f, k integer, 0 <= f < 1 is rewritten to P^k g^f, after scaling the whole polynomial by
+    g^shift so that no exponent is negative (a positive factor: harmless for the zero test)"""
+    import math
+    gp = core.CTX.__dict__.get('_gpoly', {})
+    if not gp or not p:
+        return p
+    present = sorted({v for m in p for v, _ in m if v in gp}, reverse=True)
+    for g in present:
+        exps = []
+        for m in p:
+            e = 0
+            for v, ee in m:
+                if v == g:
+                    e = ee
+                    break
+            exps.append(e)
+        lo = min(exps)
+        shift = -math.floor(lo) if lo < 0 else 0
+        groups = {}
+        for m, c in p.items():
+            d = dict(m)
+            e = d.pop(g, 0) + shift
+            k = math.floor(e)
+            f = e - k
+            if f != 0:
+                d[g] = f
+            groups.setdefault(k, {})
+            mm = tuple(sorted(d.items()))
+            groups[k][mm] = groups[k].get(mm, 0) + c
+        if set(groups) == {0}:
+            p = {m: c for m, c in groups[0].items() if c}
+            continue
+        new = {}
+        P = gp[g]
+        cache = {0: rf.ONE}
+        for k, q in groups.items():
+            if k not in cache:
+                cache[k] = rf.ppow(P, k)
+            new = rf.padd(new, rf.pmul({m: c for m, c in q.items() if c}, cache[k]))
+        p = new
+    return p
+
+
+def _rpow_frac(n, base):
+    """base ** (p/q) for a positive base, expanded factor by factor into a generalised
+    monomial: rational coefficient -> constant generator, monomial part -> rational
+    exponents, every non-monomial polynomial factor (primitive part of the numerator,
+    each denominator factor) -> ONE generator per distinct polynomial, raised to the
+    exponent.  Power laws ((ab)^e = a^e b^e, (a^p)^e = a^(pe)) are then exact."""
+    from fractions import Fraction
+    e = n.val
+    exps = {}
+    if not base.n:
+        if e > 0:
+            return rf.Frac({}, 1, {}, {})        # 0 ** e = 0
+        raise ZeroDivisionError('zero to a negative power')
+
+    def gen_for(poly):
+        tab = core.CTX.__dict__.setdefault('_rpow_bases', {})
+        key = rf._pkey(poly)
+        if key not in tab:
+            tab[key] = _vid(f'g_{len(tab)}')
+            core.CTX.__dict__.setdefault('_gpoly', {})[tab[key]] = poly
+        return tab[key]
+    sign, c0, mc, q = rf._factor_den(base.n)
+    if sign < 0:
+        return rf.Frac({((_vid(f'o_{n.id}'), 1),): 1})      # non-positive base: fully opaque
+    coef = Fraction(c0, base.c)
+    for v, ex in mc.items():
+        exps[v] = exps.get(v, 0) + ex * e
+    if q is not None:
+        g = gen_for(q)
+        exps[g] = exps.get(g, 0) + e
+    for v, ex in base.m.items():
+        exps[v] = exps.get(v, 0) - ex * e
+    for k, (p, ex) in base.f.items():
+        g = gen_for(p)
+        exps[g] = exps.get(g, 0) - ex * e
+    if coef != 1:
+        # rational coefficient -> prime generators, so that 4^e, (1/4)^e, 2^(2e) ... are one object
+        for prime, a in _prime_factors(coef).items():
+            kv = _vid(f'k_{prime}')
+            core.CTX.__dict__.setdefault('_kprime', {})[kv] = prime
+            exps[kv] = exps.get(kv, 0) + a * e
+    mono = tuple(sorted((v, ex) for v, ex in exps.items() if ex != 0))
+    return rf.Frac({mono: 1})
 
 
 def _sqrt_atoms_in(p):
@@ -162,6 +301,9 @@ def _sqrt_atoms_in(p):
 
 def reduce_numer(p, expand=False):
     """reduce modulo r^2 = radicand for every sqrt atom r (sqrt3 is reduced on the fly)"""
+    p = fold_prime_powers(p)
+    p = fold_generator_powers(p)
+    p = fold_prime_powers(p)
     for _ in range(50):
         sq = _sqrt_atoms_in(p)
         if not sq:
@@ -292,6 +434,8 @@ def _var_kinds():
                 nonneg.add(vid)
             elif k == 'int' and info.get('lo') is not None and info['lo'] >= 0:
                 (strict if info['lo'] > 0 else nonneg).add(vid)
+        elif key.startswith('k_'):
+            strict.add(vid)
         elif key.startswith('o_'):
             n = core.CTX.nodes[int(key[2:])]
             if n.op == 'rpow':
@@ -302,6 +446,12 @@ def _var_kinds():
                     strict.add(vid)
                 elif sg == '>=0':
                     nonneg.add(vid)
+    # generators standing for polynomial factors of rational-power bases: positive only when
+    # the polynomial itself is certified positive
+    for vid, poly in core.CTX.__dict__.get('_gpoly', {}).items():
+        sg = _poly_sign(poly, strict, nonneg)
+        if sg is not None and sg[0] == '+' and sg[1]:
+            strict.add(vid)
     return strict, nonneg
 
 
